@@ -18,6 +18,7 @@ struct Prog {
     uint64_t vcpu_flags = 0; uint64_t thread_flags = 0;
     std::atomic<int> go{0}, ready{0}, finished{0}, bodies_done{0};
     bool early_join = false;     // true: a vCPU joins (and disposes) its threads as soon as they finish
+    std::function<void(int)> on_vcpu_start, on_vcpu_end;   // run on each vCPU (photon context) before the start barrier / after its joins
     void parse(const char* s) {
         std::string cur; int os = 0; bool plain = false;
         for (const char* c = s;; c++) {
@@ -37,6 +38,7 @@ struct Prog {
             bool plain = false; for (auto& p : pts) if (p.os == os && p.plain_os) plain = true;
             char nm[16]; snprintf(nm, sizeof nm, plain ? "os%d" : "vcpu%d", os);
             auto fn = [this, os, plain, body] {
+                if (!plain && on_vcpu_start) on_vcpu_start(os);
                 ready++;
                 while (go.load() == 0) {}
                 if (plain) { for (auto& p : pts) if (p.os == os) { body(p); p.done = true; bodies_done++; } }
@@ -60,6 +62,7 @@ struct Prog {
                     for (auto h : jh) photon::thread_join(h);
                 }
                 if (++finished == nos) pmc_window(0);
+                if (!plain && on_vcpu_end) { while (finished.load() < nos) photon::thread_usleep(5ull * 1000 * 1000); on_vcpu_end(os); }
             };
             ts.push_back(plain ? mvp::spawn_os(fn, nm) : mvp::spawn_vcpu(fn, vcpu_flags, nm));
         }
